@@ -541,9 +541,9 @@ Definition controls (fs : list pframe) : list (N * bytes) :=
   map (fun f => (pf_op f, pf_payload f)) (filter (fun f => op_control (pf_op f)) fs).
 
 (* ================= harness interface ================= *)
-Definition gen_step (s : N) : N := (s * 75 + 74) mod 65537.
+Definition gen_step (s : N) : N := N.land (s * 5 + 12345) 65535.
 Definition gen_bytes (seed len : N) : bytes :=
-  rev (snd (N.iter len (fun sa => let s' := gen_step (fst sa) in (s', (s' mod 256) :: snd sa)) (seed mod 65537, []))).
+  rev_append (snd (N.iter len (fun sa => let s' := gen_step (fst sa) in (s', N.shiftr s' 8 :: snd sa)) (N.land seed 65535, []))) [].
 
 Definition sx_data (x : sx) : option bytes :=
   match x with
@@ -556,7 +556,9 @@ Fixpoint sx_chunks (l : list sx) : list bytes :=
 Fixpoint sx_ns (l : list sx) : list N :=
   match l with [] => [] | SZ z :: t => Z.to_N z :: sx_ns t | _ :: t => sx_ns t end.
 
-Definition digest (w : bytes) : N := fold_left (fun h b => (h * 31 + b) mod 4294967296) w 0.
+Definition digest (w : bytes) : N :=
+  let '(a, c) := fold_left (fun ac b => let a := N.land (fst ac + b) 65535 in (a, N.land (snd ac + a) 65535)) w (0, 0) in
+  c * 65536 + a.
 Definition digest_limit : N := 100000.
 Definition sx_wire (w : bytes) : sx :=
   let l := lenN w in if digest_limit <? l then SL [sN l; sN (digest w)] else SB w.
@@ -565,6 +567,11 @@ Definition blen_of (is_srv : bool) (b : N) : N :=
   if b =? 0 then (if is_srv then defaultWBuf else defaultWBuf + maxHdr) else b + maxHdr.
 
 Definition zb (z : Z) : bool := negb (z =? 0)%Z.
+
+(* harness convention: after WriteMessage / WriteJSON the application holds no writer handle *)
+Definition drop_handle (r : res (cst * N)) : res (cst * N) :=
+  let* x := r in
+  let s := fst x in Ok (st_h s (wopen s) 0 (mwclosed s) (zopen s) (tws_ s), snd x).
 
 Definition step_op (c : cfg) (pms : list (N * bytes)) (s : cst) (op : sx) : res (cst * N) :=
   match op with
@@ -577,7 +584,7 @@ Definition step_op (c : cfg) (pms : list (N * bytes)) (s : cst) (op : sx) : res 
       match sx_data d with Some p => do_read_from c s p (sx_ns caps) (zb ewd) (sx_chunks ch) | None => Err 98 end
   | SL [SZ 4; SL ch] => do_close c s (sx_chunks ch)
   | SL [SZ 5; SZ t; d; SL wch; SL cch] =>
-      match sx_data d with Some p => do_write_message c s (Z.to_N t) p (sx_chunks wch) (sx_chunks cch)
+      match sx_data d with Some p => drop_handle (do_write_message c s (Z.to_N t) p (sx_chunks wch) (sx_chunks cch))
                       | None => Err 98 end
   | SL [SZ 6; SZ idx; SL wch; SL cch] =>
       match nth_error pms (Z.to_nat idx) with
@@ -585,13 +592,14 @@ Definition step_op (c : cfg) (pms : list (N * bytes)) (s : cst) (op : sx) : res 
       | None => Ok (s, eNoHandle)
       end
   | SL [SZ 7; SB enc; SL wch; SL cch] =>
+      drop_handle (
       let* r := do_next c s opText [] in
       let '(s1, e) := r in
       if negb (e =? 0) then Ok (s1, e)
       else
         let* r1 := do_write c s1 enc (sx_chunks wch) in
         let* r2 := do_close c (fst r1) (sx_chunks cch) in
-        Ok (fst r2, if negb (snd r1 =? 0) then snd r1 else snd r2)
+        Ok (fst r2, if negb (snd r1 =? 0) then snd r1 else snd r2))
   | SL [SZ 8; SZ t; d] =>
       match sx_data d with Some p => Ok (do_control c s (Z.to_N t) p) | None => Err 98 end
   | SL [SZ 9; SZ l] =>
@@ -639,7 +647,7 @@ Definition sx_frame (f : pframe) : sx :=
 
 Definition run_c13 (c : sx) : sx :=
   match c with
-  | SL [SZ 0; SZ r; SZ b; SZ cp; SL pms; SL ops; SL ks] =>
+  | SL [SZ 0; SZ r; SZ b; SZ cp; SL pms; SL ops; SL ks; SZ _] =>
       run_session (zb r) (Z.to_N b) (zb cp) (sx_pms pms) ops (sx_chunks ks)
   | SL [SZ 1; SB key; SZ p; SZ align; SB data] =>
       let (m, p') := mask_words (Z.to_N align) key (Z.to_N p) data in s_ok [SB m; sN p']
